@@ -5,6 +5,7 @@ import (
 	"go/constant"
 	"go/token"
 	"go/types"
+	"regexp"
 	"sort"
 	"strings"
 
@@ -27,15 +28,33 @@ type Renderer struct {
 	wholeStores map[*ssa.Alloc][]*ssa.Store
 	reach       map[*ssa.BasicBlock]map[*ssa.BasicBlock]bool
 	callSeen    map[string][]*ssa.Call
+	noInline    bool
+	inlineDepth int
+	bind        []string // parameter i is rendered as bind[i] (helper seen in its caller's terms)
 }
 
 func (p *Prog) R(fn *ssa.Function) *Renderer {
 	if r, ok := p.rend[fn]; ok {
 		return r
 	}
-	r := &Renderer{p: p, fn: fn, memo: map[ssa.Value]string{}, inprog: map[ssa.Value]bool{},
-		allocN: map[*ssa.Alloc]int{}, fieldStores: map[*ssa.Alloc][]*ssa.Store{}, wholeStores: map[*ssa.Alloc][]*ssa.Store{}, callSeen: map[string][]*ssa.Call{}}
+	r := p.newRenderer(fn, nil)
 	p.rend[fn] = r
+	r.prescan()
+	return r
+}
+
+// RBound: a fresh renderer of fn in which parameter i is rendered as bind[i] (the caller's
+// argument): used to see a helper's values and facts in the caller's terms.
+func (p *Prog) RBound(fn *ssa.Function, bind []string, depth int) *Renderer {
+	r := p.newRenderer(fn, bind)
+	r.inlineDepth = depth
+	r.prescan()
+	return r
+}
+
+func (p *Prog) newRenderer(fn *ssa.Function, bind []string) *Renderer {
+	r := &Renderer{p: p, fn: fn, memo: map[ssa.Value]string{}, inprog: map[ssa.Value]bool{},
+		allocN: map[*ssa.Alloc]int{}, fieldStores: map[*ssa.Alloc][]*ssa.Store{}, wholeStores: map[*ssa.Alloc][]*ssa.Store{}, callSeen: map[string][]*ssa.Call{}, bind: bind}
 	n := map[string]int{}
 	for _, b := range fn.Blocks {
 		for _, in := range b.Instrs {
@@ -55,15 +74,18 @@ func (p *Prog) R(fn *ssa.Function) *Renderer {
 			}
 		}
 	}
-	// assign call ordinals in instruction order (deterministic)
-	for _, b := range fn.Blocks {
+	return r
+}
+
+// prescan assigns call ordinals in instruction order (deterministic).
+func (r *Renderer) prescan() {
+	for _, b := range r.fn.Blocks {
 		for _, in := range b.Instrs {
 			if c, ok := in.(*ssa.Call); ok {
 				r.E(c)
 			}
 		}
 	}
-	return r
 }
 
 // rootAlloc follows FieldAddr chains to a local Alloc and returns the field path.
@@ -343,6 +365,9 @@ func (r *Renderer) render(v ssa.Value) string {
 	case *ssa.Parameter:
 		for i, p := range r.fn.Params {
 			if p == x {
+				if i < len(r.bind) && r.bind[i] != "" {
+					return r.bind[i]
+				}
 				return fmt.Sprintf("$%d", i)
 			}
 		}
@@ -457,6 +482,11 @@ func (r *Renderer) render(v ssa.Value) string {
 	case *ssa.TypeAssert:
 		return r.E(x.X) + ".(" + typeShort(x.AssertedType) + ")"
 	case *ssa.Extract:
+		if call, ok := x.Tuple.(*ssa.Call); ok {
+			if s, ok := r.inlineHelper(call, x.Index); ok {
+				return s
+			}
+		}
 		return r.E(x.Tuple) + "#" + fmt.Sprint(x.Index)
 	case *ssa.Phi:
 		// the hidden counter of a range loop (-1, then index): rendered relative to the canonical index
@@ -530,6 +560,9 @@ func (r *Renderer) render(v ssa.Value) string {
 		}
 		return r.cmp(x.Op, x.X, x.Y)
 	case *ssa.Call:
+		if s, ok := r.inlineHelper(x, -1); ok {
+			return s
+		}
 		base := r.call(&x.Call)
 		if pureCall(&x.Call) {
 			return base
@@ -1007,4 +1040,115 @@ func negOp(op token.Token) token.Token {
 		return token.GTR
 	}
 	return op
+}
+
+var argTokRe = regexp.MustCompile(`\$(\d+)`)
+
+var inlineActive = map[*ssa.Function]bool{}
+
+// inlineHelper: the value of result `idx` (-1: the single result) of a call to an unexported
+// repository helper is rendered as the helper's returned expression(s) with the parameters
+// replaced by the arguments: extracting a computation into a private function does not change
+// how the value is seen. Error results, closures, recursive and exported functions are not inlined.
+func (r *Renderer) inlineHelper(call *ssa.Call, idx int) (string, bool) {
+	if r.noInline || r.inlineDepth >= 2 {
+		return "", false
+	}
+	g := call.Call.StaticCallee()
+	if g == nil || g.Blocks == nil || g.Parent() != nil || g == r.fn || !isProdPkgFn(g) {
+		return "", false
+	}
+	o, ok := g.Object().(*types.Func)
+	if !ok || o.Exported() {
+		return "", false
+	}
+	res := g.Signature.Results()
+	k := idx
+	if idx < 0 {
+		if res.Len() != 1 {
+			return "", false
+		}
+		k = 0
+	}
+	if k >= res.Len() || types.Identical(res.At(k).Type(), errorType) {
+		return "", false
+	}
+	// helpers that write state are calls, not values
+	if r.p.mayWrite()[g] {
+		return "", false
+	}
+	if inlineActive[g] {
+		return "", false
+	}
+	inlineActive[g] = true
+	defer delete(inlineActive, g)
+	bind := make([]string, len(call.Call.Args))
+	for i, a := range call.Call.Args {
+		bind[i] = r.E(a)
+	}
+	gr := r.p.RBound(g, bind, r.inlineDepth+1)
+	var alts []string
+	for _, e := range Exits(g) {
+		if e.Kind == exitFailure || k >= len(e.Ret.Results) {
+			continue
+		}
+		v := e.Ret.Results[k]
+		if sv := spilledValue(v, e.Ret); sv != nil {
+			v = sv
+		}
+		alts = append(alts, gr.E(v))
+	}
+	if len(alts) == 0 {
+		return "", false
+	}
+	// merge with nested alternatives: φ{a|φ{b|c}} written flat
+	var flat []string
+	for _, a := range alts {
+		if strings.HasPrefix(a, "φ{") && strings.HasSuffix(a, "}") && !strings.Contains(a, "@") && balancedTop(a[len("φ{"):len(a)-1]) {
+			flat = append(flat, splitTop(a[len("φ{"):len(a)-1])...)
+		} else {
+			flat = append(flat, a)
+		}
+	}
+	flat = dedupe(flat)
+	if len(flat) == 1 {
+		return flat[0], true
+	}
+	return "φ{" + strings.Join(flat, "|") + "}", true
+}
+
+// splitTop splits a φ body at top-level '|' (not inside parentheses, brackets or braces).
+func splitTop(s string) []string {
+	var out []string
+	depth, start := 0, 0
+	for i, ch := range s {
+		switch ch {
+		case '(', '[', '{':
+			depth++
+		case ')', ']', '}':
+			depth--
+		case '|':
+			if depth == 0 {
+				out = append(out, s[start:i])
+				start = i + 1
+			}
+		}
+	}
+	return append(out, s[start:])
+}
+
+func balancedTop(s string) bool {
+	depth := 0
+	for _, ch := range s {
+		switch ch {
+		case '(', '[', '{':
+			depth++
+		case ')', ']', '}':
+			depth--
+			if depth < 0 {
+				return false
+			}
+		}
+	}
+	return depth == 0
 }
